@@ -15,7 +15,8 @@ POOL = ['A', 'B', 'NAME-3']
 def strategy():
     base = dict(vrl=[512, 8192], max_frames=2, max_channels=3, max_rows=3, max_width=2, meta_kinds=ALL_META,
                 max_meta=10, units=False, name_pool=POOL, max_origins=3, origin_position=('first', 'middle', 'last'),
-                explicit_origin_refs=True, shuffle=True, noformat=2, nf_payload_max=20, min_row_bytes=0)
+                explicit_origin_refs=True, shuffle=True, noformat=2, nf_payload_max=20, min_row_bytes=0,
+                reuse_ref_lists=True)
     same = Profile(named_sets=True, **base)
     differ = Profile(named_sets=True, set_names_per_type_differ=True, **base)
     plain = Profile(**base)
